@@ -223,15 +223,22 @@ class Where(Contract):
 
     def apply(self, ex, args, kw, node):
         cond, x, y = args
-        if not (isinstance(cond, Arr) and cond.kind == "bool" and isinstance(x, Poly) and isinstance(y, Poly)):
+        scalar_y = isinstance(y, (int, float)) and not isinstance(y, bool)
+        if not (isinstance(cond, Arr) and cond.kind == "bool" and isinstance(x, Poly) and (isinstance(y, Poly) or scalar_y)):
             raise U("where with these operand kinds", node)
         site = ex.site("where")
-        ex.oblige(f"pre({site}).same_shape", z3.And(cond.shape == x.shape, x.shape == y.shape), "precondition", node)
+        ex.oblige(f"pre({site}).same_shape", z3.And(cond.shape == x.shape, x.shape == y.shape) if not scalar_y
+                  else cond.shape == x.shape, "precondition", node)
         ctx = ex.ctx
         r = Poly(ctx, ctx.fresh("where"), shape=x.shape)
         ctx.assume(r.wf(ctx))
         c = cond.elem
-        ctx.assume(ctx.forall_idx(lambda i: r.val(i) == z3.If(c(i), x.val(i), y.val(i)), r.shape))
+        if scalar_y:
+            from contracts.division import pconst
+            yv = lambda i: pconst(z3.RealVal(y))          # a number is the constant polynomial
+        else:
+            yv = y.val
+        ctx.assume(ctx.forall_idx(lambda i: r.val(i) == z3.If(c(i), x.val(i), yv(i)), r.shape))
         r.where_of = (cond, x, y)
         return r
 
